@@ -32,7 +32,8 @@ Proved for all sizes and all rational data about the executable definitions (sec
   (`refNnls_returns`), acceptance by `kktCheck` bounds the distance to it (`kktCheck_zero_optimal`,
   `kktCheck_tol_optimal`, `C11_certificate_full`);
 * the `while (!feasible)` loop terminates within `n + 1` passes (`block3_inner_terminates`, `block3_exits`); an accepted
-  projected step strictly decreases the objective (`walk_accepted_step_decreases`).
+  projected step and an accepted unconstrained solve strictly decrease the objective
+  (`walk_accepted_step_decreases`, `accepted_solve_decreases`).
 Still **not** proved: a decreasing measure for the outer `for` loop of BLOCK3 (the C code stores an unaccepted last
 trial of `walk_descents` and binds coefficients below `kkt_tolerance`, both of which can raise the objective; the cap
 `max_iter` is a real exit), and anything about the floating-point solves of the C code (covered by certificate checking).
@@ -395,6 +396,18 @@ theorem walk_accepted_step_decreases (n : ℕ) (A : Mat) (b : Vec) (tol : ℚ) (
       < qf (toMat n A) (toVec n b) (restr n inF x) :=
   walk_feasible_decreases (exactEnv n A b tol mi fu) A b (exactEnv_resid n A b tol mi fu) inF x xF hx hw
 
+/-- **An accepted unconstrained solve strictly decreases the objective.**  On a certified system, if `x` is supported
+on the passive set `F` and its gradient does not vanish somewhere on `F` (the situation right after coefficients with
+multipliers `< −kkt_tolerance` have been added to `F`), the exact solve on `F` — which the loop accepts when it has no
+negative entry — has a strictly smaller objective. -/
+theorem accepted_solve_decreases (n : ℕ) (A : Mat) (b : Vec) (tol : ℚ) (mi fu : ℕ) (hA : spdCert n A = true)
+    (htol : 0 ≤ tol) (inF : ℕ → Bool) (x : ℕ → ℚ) (hsup : ∀ i, i < n → inF i = false → x i = 0)
+    (hg : ∃ i, i < n ∧ inF i = true ∧ grad n A b x i ≠ 0) :
+    qf (toMat n A) (toVec n b) (restr n inF (at0 ((exactEnv n A b tol mi fu).solve inF)))
+      < qf (toMat n A) (toVec n b) (toVec n x) :=
+  full_step_decreases (exactEnv n A b tol mi fu) A b (spdCert_spd n A hA)
+    (exactEnv_ExactEnv n A b tol mi fu hA htol) inF x hsup hg
+
 /-- every exit of a run on a certified system with `innerFuel > n` is one of the two exits of the C code -/
 theorem block3_exits (n : ℕ) (A : Mat) (b : Vec) (tol : ℚ) (mi fu : ℕ) (y0 : ℕ → ℚ)
     (hA : spdCert n A = true) (htol : 0 ≤ tol) (hfu : n < fu) :
@@ -512,5 +525,11 @@ example : kktCheck 2 exA exb (at0 #[1/2, 0]) (fun _ => 0) = true := by decide +k
 first trial (distance 1, projected to `(1,0)`) is accepted -/
 example : (walkDescents (exactEnv 2 exA exb 0 120 16) (fun _ => true) (fun _ => 1) (at0 #[1, -1])) = (1, true) := by
   decide +kernel
+
+/-- hypotheses of `accepted_solve_decreases`: the first iteration on the 2 × 2 system (`x = 0`, coefficient 0 freed,
+gradient `−1` there) -/
+example : (∀ i, i < 2 → (fun i => decide (i = 0)) i = false → (fun _ => (0 : ℚ)) i = 0) ∧
+    ∃ i, i < 2 ∧ (fun i => decide (i = 0)) i = true ∧ grad 2 exA exb (fun _ => 0) i ≠ 0 :=
+  ⟨fun _ _ _ => rfl, 0, by norm_num, by simp, by rw [grad_zero]; simp [exb]⟩
 
 end PsV
